@@ -75,8 +75,41 @@ def hasQuotedName (prog : Expr) : Bool :=
 def letOnRecTop (prog : Expr) : Bool :=
   !prog.layers.isEmpty && (match prog.core with | .set _ true _ => true | _ => false)
 def hasDeref (path : List Step) : Bool := path.any (fun s => s == .deref)
-/-- the path ends on a name that a `rec` set inherits -/
-def recInheritKey (fuel : Nat) (prog : Expr) (path : List Step) : Bool :=
+/-- the set a key step indexes, found on the syntax alone (through let layers, `with` bodies,
+    parentheses and lambda bodies, to the argument of a call); identifiers are not followed -/
+def synTarget : Expr → Option (Bool × List Item)
+  | .set _ r items => some (r, items)
+  | .letE _ body => synTarget body
+  | .withE _ _ body => synTarget body
+  | .paren _ e => synTarget e
+  | .lam1 _ _ body => synTarget body
+  | .lamP _ _ body => synTarget body
+  | .app _ _ arg => synTarget arg
+  | _ => none
+
+/-- the value of the binding `key` of a binding list -/
+def bindValue (key : Text) : List Item → Option Expr
+  | [] => none
+  | .bind _ n v :: rest => if n = key then some v else bindValue key rest
+  | _ :: rest => bindValue key rest
+
+/-- the path (keys only) ends on a name that a `rec` set inherits -/
+def endsOnRecInherit : Nat → Expr → List Step → Bool
+  | 0, _, _ => false
+  | _, _, [] => false
+  | n + 1, e, .key k :: rest =>
+    match synTarget e with
+    | none => false
+    | some (r, items) =>
+      match bindValue k items with
+      | some v => endsOnRecInherit n v rest
+      | none => rest.isEmpty && r && (findInherit k items).isSome
+  | _, _, .deref :: _ => false
+
+def recInheritKey (prog : Expr) (path : List Step) : Bool := endsOnRecInherit (path.length + 1) prog path
+
+/-- the same, for paths with `.value` steps: where the spec's own traversal ends -/
+def recInheritKeySem (fuel : Nat) (prog : Expr) (path : List Step) : Bool :=
   match specSteps fuel prog .root path with
   | .ok (.atInh _ _ _ _ true) => true
   | _ => false
@@ -85,7 +118,7 @@ def recInheritKey (fuel : Nat) (prog : Expr) (path : List Step) : Bool :=
 def causes (fuel : Nat) (prog : Expr) (path : List Step) : List String :=
   (if hasLetOnIdent prog then ["let-on-identifier"] else []) ++
   (if hasInheritFrom prog then ["inherit-from"] else []) ++
-  (if recInheritKey fuel prog path then ["inherit-in-rec-by-key"] else []) ++
+  (if recInheritKey prog path || recInheritKeySem fuel prog path then ["inherit-in-rec-by-key"] else []) ++
   (if hasLambda prog then ["lambda"] else []) ++
   (if hasApp prog then ["application"] else []) ++
   (if hasParen prog then ["parenthesis"] else []) ++
@@ -96,6 +129,6 @@ def causes (fuel : Nat) (prog : Expr) (path : List Step) : List String :=
 
 /-- The fragment of `C10.resolve_partial`: let layers, `rec` and plain sets, `inherit`, references
     and literals, nested to any depth, walked by keys. -/
-def InFragment (fuel : Nat) (prog : Expr) (path : List Step) : Bool := (causes fuel prog path).isEmpty
+def InFragment (prog : Expr) (path : List Step) : Bool := (causes 0 prog path).isEmpty
 
 end Nima.Scope
